@@ -34,10 +34,37 @@ def make_sf(kind, h, level):
     raise KeyError(kind)
 
 
+def usage_pattern(kind, h, level, y, z):
+    """how the score object is used, chosen reproducibly from the inputs: 0 plain; 1 another scorer of the same class (other
+    degree / level) is constructed before this one is evaluated; 2 the scorer and the very same arrays were used for other data
+    before and are refilled in place; 3 the scorer is constructed at level 0.5 and its public attribute level re-assigned"""
+    import zlib
+
+    return zlib.crc32(repr((kind, h, level, list(y), list(z))).encode()) % 4
+
+
 def call_score(kind, h, level, y, z, w=None):
     try:
-        sf = make_sf(kind, h, level)
-        per = sf.score_per_obs(np.array(y, dtype=float), np.array(z, dtype=float))
+        pat = usage_pattern(kind, h, level, y, z)
+        valid_level = isinstance(level, (int, float)) and 0 < level < 1
+        if pat == 3 and kind in ("hes", "hqs", "pinball") and valid_level:
+            sf = make_sf(kind, h, 0.5)
+            sf.level = level
+        else:
+            sf = make_sf(kind, h, level)
+        if pat == 1 and kind in ("hes", "hqs"):
+            make_sf(kind, h + 0.5, 0.3 if valid_level and level != 0.3 else 0.6)  # a bystander with other parameters
+        ya, za = np.array(y, dtype=float), np.array(z, dtype=float)
+        if pat == 2 and len(y) > 0:
+            try:
+                ya[:] = np.abs(ya[::-1]) + 1.5
+                za[:] = np.abs(za[::-1]) + 2.5
+                sf.score_per_obs(ya, za)
+            except Exception:
+                pass
+            ya[:] = y
+            za[:] = z
+        per = sf.score_per_obs(ya, za)
         per = np.asarray(per, dtype=float)
     except Exception as e:
         return {"err": exc_class(e)}
